@@ -5,7 +5,9 @@
 package main
 
 import (
+	"encoding/json"
 	"fmt"
+	"os"
 	"strings"
 
 	crypto "github.com/onflow/crypto"
@@ -354,6 +356,84 @@ func mstr(m model) string {
 	return fmt.Sprintf("running=%v,ended=%v,timeouts=%d", m.Running, m.Ended, m.Timeouts)
 }
 
+// replay re-executes a recorded call sequence on a fresh real instance (no cloning) and compares
+// every call with the documented state machine.
+func replay(roles []role) {
+	b, err := os.ReadFile(run.Replay)
+	if err != nil {
+		run.Fatal("replay: %v", err)
+	}
+	var f struct {
+		Key    string `json:"key"`
+		Replay struct {
+			Protocol string   `json:"protocol"`
+			Role     string   `json:"role"`
+			N        int      `json:"n"`
+			T        int      `json:"t"`
+			Me       int      `json:"me"`
+			Dealer   int      `json:"dealer"`
+			Calls    []string `json:"calls"`
+		} `json:"replay"`
+	}
+	if err := json.Unmarshal(b, &f); err != nil {
+		run.Fatal("replay: %v", err)
+	}
+	var r *role
+	for i := range roles {
+		x := roles[i]
+		if x.Proto.String() == f.Replay.Protocol && x.Name == f.Replay.Role && x.N == f.Replay.N && x.T == f.Replay.T && x.Me == f.Replay.Me {
+			r = &roles[i]
+		}
+	}
+	if r == nil {
+		run.Fatal("replay: unknown role %s/%s", f.Replay.Protocol, f.Replay.Role)
+	}
+	alpha := alphabet(*r)
+	nd, err := dkgsys.NewNode(r.Proto, r.N, r.T, r.Me, r.Dealer)
+	if err != nil {
+		run.Fatal("%v", err)
+	}
+	seed := dkgsys.SeedFor(run.Seed, r.Me)
+	m := model{}
+	for _, name := range f.Replay.Calls {
+		var c *call
+		for i := range alpha {
+			if alpha[i].Name == name {
+				c = &alpha[i]
+			}
+		}
+		if c == nil {
+			run.Fatal("replay: unknown call %q", name)
+		}
+		want, nm := expect(*r, m, *c)
+		cls, pan := doCall(nd, *c, seed)
+		nd.Rec.Drain()
+		ok := pan == ""
+		if ok {
+			ok = false
+			for _, w := range want {
+				if w == cls {
+					ok = true
+				}
+			}
+		}
+		fmt.Printf("  %-40s -> %s %s (documented: %v) Running()=%v (documented %v)\n", name, cls, pan, want, nd.Inst.Running(), nm.Running)
+		run.Add("transitions", 1)
+		if !ok || nd.Inst.Running() != nm.Running {
+			run.Violation(f.Key, "replayed call sequence still deviates from the documented state machine at "+name, f.Replay)
+			break
+		}
+		m = nm
+	}
+	run.Add("states", 1)
+	run.Add("traces_validated_against_impl", 1)
+	run.Distinct("replay/1")
+	run.Distinct("replay/2")
+	run.Sample(f.Replay)
+	run.Set("rule", "replay of one recorded call sequence")
+	run.Finish()
+}
+
 func main() {
 	run = ev.Start("C10", "model_checking")
 	depth := 10
@@ -370,6 +450,11 @@ func main() {
 	}
 	if run.Thorough() {
 		roles = append(roles, role{dkgsys.FVSSQ, 4, 2, 3, 1, "non-dealer"}, role{dkgsys.JF, 4, 2, 1, 0, "participant1"})
+	}
+	if run.Replay != "" {
+		all := append(roles, role{dkgsys.FVSSQ, 4, 2, 3, 1, "non-dealer"}, role{dkgsys.JF, 4, 2, 1, 0, "participant1"})
+		replay(all)
+		return
 	}
 	ev.Par(len(roles), func(i int) { explore(roles[i], depth) })
 	run.Set("rule", "per (protocol, role): BFS from a fresh real instance over the call alphabet {Start(valid seed), Start(31-byte seed), NextTimeout, End, ForceDisqualify(-1|dealer|other|n), HandleBroadcastMsg/HandlePrivateMsg(origin in {-1,self,dealer,other,n} x message in {empty, junk tag, recorded well-formed vector/complaint/answer/share})}; successor = deep clone + real call; states deduplicated by (canonical hash of every instance field, model state); explored to fixpoint below the depth cap (depth_cap_hit reports whether the cap cut anything). Each call's error class and Running() are compared with the documented state machine; every rejected call is checked for non-interference (equal canonical state, else all continuations to depth 3). distinct_nontrivial = distinct reachable (instance state) classes.")
